@@ -16,10 +16,11 @@ namespace SourceShape
 
 /-- C15: every access to the queue state is inside `getJob`, which is one `Lock / defer Unlock`
 region with the modelled body; `Push` and `do` only call `getJob`; both connection construction
-sites use `maxConcurrency: 1`. -/
+sites use `maxConcurrency: 1`; `Conn.Async` is `c.writeQueue.Push(f)` and `WriteAsync`/`WritevAsync` consist of one
+call of `c.Async` with a function literal (no path around the queue). -/
 theorem taskqueue_sections :
     Facts.getJobLocks = true ∧ Facts.getJobBodyAsModelled = true ∧ Facts.pushIsGetJobThenSpawn = true ∧
     Facts.doLoopsGetJob = true ∧ Facts.queueStateTouchedBy = ["workerQueue.getJob"] ∧
-    Facts.writeQueueMaxConcurrency = [1, 1] := by decide
+    Facts.writeQueueMaxConcurrency = [1, 1] ∧ Facts.asyncApisOnlySubmit = true := by decide
 
 end SourceShape
